@@ -1,13 +1,59 @@
 """Interval analysis with guard refinement over one MIR body (no values from input are ever computed: every
 integer is abstracted by a range derived from its type, constants, arithmetic and the branch conditions that
 dominate it).  Used to *discharge* panic-capable sites inside declared zones; a site it cannot discharge is
-reported, never silently accepted."""
+reported, never silently accepted.
+
+Abstract values are attached to *terms*:
+  int l                    the MIR local _l (flow sensitive, killed on assignment)
+  ('P', root, path)        the integer stored at a memory place: root local + path of '*', ('f', i), ('d', v)
+                           (field / deref / enum-payload projections only; killed when an overlapping place is written,
+                           mutably borrowed, or handed to a call by `&mut`)
+  ('L', root, path)        the length of the slice / Vec / array at that place
+Facts: an interval per term, `<` / `<=` relations between terms, "local is a copy of term", comparison results held
+in bool locals, overflow tuples, and counting-range iterators (`a..b`).  Loop heads are widened per bound to the next
+threshold (type bounds, powers of two, constants of the function), then to the type range.
+"""
 import re
 
 from .mir import Term, op_place, op_local, op_const
 
 INT_RE = re.compile(r"^(u|i)(8|16|32|64|128|size)$")
 INF = float("inf")
+ISIZE_MAX = (1 << 63) - 1
+
+# integer-like newtypes of font-types: the integer range their conversions can produce
+NEWTYPE_RANGES = {
+    "font_types::uint24::Uint24": (0, (1 << 24) - 1),
+    "font_types::int24::Int24": (-(1 << 23), (1 << 23) - 1),
+    "font_types::glyph_id::GlyphId16": (0, 65535),
+    "font_types::fword::FWord": (-32768, 32767),
+    "font_types::fword::UfWord": (0, 65535),
+    "font_types::offset::Offset16": (0, 65535),
+    "font_types::offset::Offset24": (0, (1 << 24) - 1),
+    "font_types::offset::Offset32": (0, (1 << 32) - 1),
+    "font_types::name_id::NameId": (0, 65535),
+    "font_types::fixed::F2Dot14": None,   # conversions scale; not a plain integer view
+}
+# repo functions that are known (checked by C01-a) to return the length of an in-memory byte slice
+KNOWN_LEN_FNS = {"read_fonts::font_data::FontData::<'a>::len"}
+CONV_NAMES = ("from", "into", "to_u32", "to_u16", "to_i32", "to_i16", "to_usize", "to_u8", "get", "to_raw")
+
+# ADT facts (enum discriminant values), filled by callers that have a Facts object: path -> [values]
+ADT_DISCRS = {}
+
+
+def register_adts(facts):
+    if getattr(facts, "_adts_registered", False):
+        return
+    for c in facts.crates:
+        for r in facts.records("adt", c):
+            ds = r.get("discrs") or []
+            if ds:
+                try:
+                    ADT_DISCRS[r["path"]] = [int(x) for x in ds]
+                except ValueError:
+                    pass
+    facts._adts_registered = True
 
 
 def ty_range(ty):
@@ -39,16 +85,28 @@ def fits(r, tr):
 NEG = {"Lt": "Ge", "Le": "Gt", "Gt": "Le", "Ge": "Lt", "Eq": "Ne", "Ne": "Eq"}
 SWAP = {"Lt": "Gt", "Le": "Ge", "Gt": "Lt", "Ge": "Le", "Eq": "Eq", "Ne": "Ne"}
 
+STD_THRESHOLDS = sorted({0, 1, -1, 2, 127, 128, 255, 256, 32767, 32768, 65535, 65536, (1 << 24) - 1, 1 << 24,
+                         (1 << 31) - 1, 1 << 31, (1 << 32) - 1, 1 << 32, ISIZE_MAX, 1 << 63, (1 << 64) - 1,
+                         -128, -129, -32768, -32769, -(1 << 31), -(1 << 31) - 1, -(1 << 63)})
+
+
+def term_root(t):
+    return t if isinstance(t, int) else t[1]
+
 
 class State:
-    __slots__ = ("iv", "alias", "cmp", "rel", "ovf")
+    __slots__ = ("iv", "alias", "cmp", "rel", "ovf", "rngs", "vf", "disc")
 
     def __init__(self):
-        self.iv = {}      # local or (local, field) -> (lo, hi)
-        self.alias = {}   # tmp -> source local (tmp is a plain copy of source)
-        self.cmp = {}     # bool local -> (op, a_operand, b_operand)
-        self.rel = set()  # (a_local, "<"|"<=", b_local)
-        self.ovf = {}     # local -> (op, a, b) for *WithOverflow tuples / checked results
+        self.iv = {}      # term -> (lo, hi)
+        self.alias = {}   # local -> term whose current value the local holds
+        self.cmp = {}     # bool local -> (op, a_operand, b_operand, a_term, b_term)
+        self.rel = set()  # (a_term, "<"|"<=", b_term)
+        self.ovf = {}     # local -> (op, a, b) for *WithOverflow tuples
+        self.rngs = {}    # local holding a counting range -> (lo, hi_exclusive_max, end_term or None, inclusive)
+        self.vf = {}      # local of enum type -> (variant value, ((a_term, op, b_term), ...), ((term, lo, hi), ...)): facts that
+                          # hold whenever the local is that variant (e.g. `slice.get(i)` is Some  =>  i < len)
+        self.disc = {}    # local -> the local whose discriminant it holds
 
     def copy(self):
         s = State()
@@ -57,22 +115,71 @@ class State:
         s.cmp = dict(self.cmp)
         s.rel = set(self.rel)
         s.ovf = dict(self.ovf)
+        s.rngs = dict(self.rngs)
+        s.vf = dict(self.vf)
+        s.disc = dict(self.disc)
         return s
 
-    def kill(self, l):
-        self.iv.pop(l, None)
-        for k in [k for k in self.iv if isinstance(k, tuple) and k[0] == l]:
-            del self.iv[k]
-        self.alias.pop(l, None)
-        for k in [k for k, v in self.alias.items() if v == l]:
+    def kill_term(self, t):
+        self.iv.pop(t, None)
+        for k in [k for k, v in self.alias.items() if v == t]:
             del self.alias[k]
-        self.cmp.pop(l, None)
-        for k in [k for k, v in self.cmp.items() if op_local(v[1]) == l or op_local(v[2]) == l]:
+        for k in [k for k, v in self.cmp.items() if v[3] == t or v[4] == t]:
             del self.cmp[k]
-        self.ovf.pop(l, None)
-        self.rel = {r for r in self.rel if r[0] != l and r[2] != l}
+        if self.rel:
+            self.rel = {r for r in self.rel if r[0] != t and r[2] != t}
+        for k in [k for k, v in self.rngs.items() if v[2] == t]:
+            v = self.rngs[k]
+            self.rngs[k] = (v[0], v[1], None, v[3])
+        for k in [k for k, v in self.vf.items() if any(t in (r[0], r[2]) for r in v[1]) or any(b[0] == t for b in v[2])]:
+            del self.vf[k]
 
-    def join(self, o, body):
+    def kill(self, l):
+        """local l is (re)assigned"""
+        self.alias.pop(l, None)
+        self.cmp.pop(l, None)
+        self.ovf.pop(l, None)
+        self.rngs.pop(l, None)
+        self.vf.pop(l, None)
+        self.disc.pop(l, None)
+        for k in [k for k, v in self.disc.items() if v == l]:
+            del self.disc[k]
+        self.kill_term(l)
+        # (l, field) overflow-tuple keys and memory terms rooted at l
+        for k in [k for k in self.iv if isinstance(k, tuple) and (k[0] == l or (k[0] in ("P", "L") and k[1] == l))]:
+            self.kill_term(k)
+        stale = {r for r in self.rel for t in (r[0], r[2]) if isinstance(t, tuple) and t[0] in ("P", "L") and t[1] == l}
+        if stale:
+            self.rel -= stale
+        for k in [k for k, v in self.alias.items() if isinstance(v, tuple) and v[0] in ("P", "L") and v[1] == l]:
+            del self.alias[k]
+
+    def mem_terms(self):
+        out = set()
+        for k in self.iv:
+            if isinstance(k, tuple) and k[0] in ("P", "L"):
+                out.add(k)
+        for v in self.alias.values():
+            if isinstance(v, tuple) and v[0] in ("P", "L"):
+                out.add(v)
+        for r in self.rel:
+            for t in (r[0], r[2]):
+                if isinstance(t, tuple) and t[0] in ("P", "L"):
+                    out.add(t)
+        for v in self.rngs.values():
+            if isinstance(v[2], tuple):
+                out.add(v[2])
+        for v in self.vf.values():
+            for r in v[1]:
+                for t in (r[0], r[2]):
+                    if isinstance(t, tuple) and t[0] in ("P", "L"):
+                        out.add(t)
+            for b in v[2]:
+                if isinstance(b[0], tuple) and b[0][0] in ("P", "L"):
+                    out.add(b[0])
+        return out
+
+    def join(self, o):
         """in-place join with o; returns True if changed"""
         changed = False
         for k in list(self.iv):
@@ -84,10 +191,20 @@ class State:
             else:
                 del self.iv[k]
                 changed = True
-        for d_self, d_o in ((self.alias, o.alias), (self.cmp, o.cmp), (self.ovf, o.ovf)):
+        for d_self, d_o in ((self.alias, o.alias), (self.cmp, o.cmp), (self.ovf, o.ovf), (self.vf, o.vf), (self.disc, o.disc)):
             for k in list(d_self):
                 if d_o.get(k) != d_self[k]:
                     del d_self[k]
+                    changed = True
+        for k in list(self.rngs):
+            a, b = self.rngs[k], o.rngs.get(k)
+            if b is None:
+                del self.rngs[k]
+                changed = True
+            elif a != b:
+                n = (min(a[0], b[0]), max(a[1], b[1]), a[2] if a[2] == b[2] else None, a[3] or b[3])
+                if n != a:
+                    self.rngs[k] = n
                     changed = True
         nr = self.rel & o.rel
         if nr != self.rel:
@@ -104,10 +221,187 @@ class Intervals:
         self.call_models = call_models or {}
         self.in_states = {}
         self.visits = {}
-        self.site_results = {}   # (bb, 'term'|idx) -> (ok, description)
+        self.term_tr = {}        # memory term -> type range (learned when a typed read is seen)
+        self.converged = True
+        self._place_cache = {}
+        self._ptr_cache = {}
+        self._uses = None
+        self.thresholds = self._collect_thresholds()
         self._run()
 
+    # ---- thresholds ---------------------------------------------------------------------------
+    def _collect_thresholds(self):
+        th = set(STD_THRESHOLDS)
+
+        def add_op(o):
+            if isinstance(o, list) and o and o[0] == "k":
+                c = op_const(o)
+                if c and c[1] is not None and ty_range(c[0]) is not None and abs(c[1]) < (1 << 64):
+                    th.update((c[1] - 1, c[1], c[1] + 1))
+        for blk in self.body.blocks:
+            if blk.cleanup:
+                continue
+            for s in blk.stmts:
+                if s[0] == "A":
+                    for x in s[2][1:]:
+                        if isinstance(x, list):
+                            add_op(x)
+                            if x and isinstance(x[0], list):
+                                for y in x:
+                                    add_op(y)
+            t = blk.term
+            if t.kind == "call":
+                for a in t.args:
+                    add_op(a)
+            elif t.kind == "switch":
+                for v, _ in t.d[2]:
+                    th.update((int(v) - 1, int(v), int(v) + 1))
+        # array lengths in local types: [T; N]
+        for ty in self.body.locals:
+            for m in re.finditer(r"; (\d+)\]", ty[0]):
+                n = int(m.group(1))
+                th.update((n - 1, n, n + 1))
+        return sorted(th)
+
+    def _widen_lo(self, v):
+        best = -INF
+        for t in self.thresholds:
+            if t <= v:
+                best = t
+            else:
+                break
+        return best
+
+    def _widen_hi(self, v):
+        for t in self.thresholds:
+            if t >= v:
+                return t
+        return INF
+
+    # ---- places -------------------------------------------------------------------------------
+    def _stable_local(self, l):
+        """l is never assigned (parameter) or assigned exactly once"""
+        b = self.body
+        ds = b.defs().get(l, [])
+        if 0 < l <= b.argc:
+            return not ds
+        return len(ds) == 1
+
+    def _ptr_target(self, l, depth=0):
+        """for a pointer/reference local: (root, path, exact) of the place it points to, or None.
+        Followed only through single-assignment temporaries."""
+        if l in self._ptr_cache:
+            return self._ptr_cache[l]
+        self._ptr_cache[l] = None
+        b = self.body
+        res = None
+        if depth < 20 and not (0 < l <= b.argc):
+            sd = b.single_def(l)
+            if sd is not None:
+                rv = sd[2]
+                if isinstance(rv, Term):
+                    c = rv.callee
+                    if rv.args and (c.endswith("as core::ops::deref::Deref>::deref") or c.endswith("as core::ops::deref::DerefMut>::deref_mut")
+                                    or c.endswith("::as_slice") or c.endswith("::as_mut_slice")
+                                    or c in ("alloc::vec::Vec::<T, A>::as_slice", "alloc::vec::Vec::<T, A>::as_mut_slice")):
+                        a = op_local(rv.args[0])
+                        if a is not None:
+                            res = self._ptr_target(a, depth + 1)
+                elif rv[0] in ("ref", "raw"):
+                    res = self.resolve_place(rv[2], depth + 1)
+                elif rv[0] == "use" or (rv[0] == "cast" and str(rv[1]).startswith("PointerCoercion")):
+                    src = op_place(rv[1] if rv[0] == "use" else rv[2])
+                    if src is not None and not src[1]:
+                        res = self._ptr_target(src[0], depth + 1)
+        self._ptr_cache[l] = res
+        return res
+
+    def resolve_place(self, p, depth=0):
+        """(root local, path tuple, exact) for a MIR place, following reborrows of single-assignment pointer
+        temporaries; `exact` is False when the path was cut at an index/subslice projection.  None if unknown."""
+        l, projs = p[0], p[1]
+        base = None
+        rest = projs
+        if projs and projs[0] == "*":
+            t = self._ptr_target(l, depth)
+            if t is not None:
+                if not t[2]:
+                    return (t[0], t[1], False)
+                base = (t[0], list(t[1]))
+                rest = projs[1:]
+        if base is None:
+            base = (l, [])
+        path = base[1]
+        exact = True
+        for e in rest:
+            if e == "*":
+                path.append("*")
+            elif isinstance(e, list) and e[0] == "f":
+                path.append(("f", e[1]))
+            elif isinstance(e, list) and e[0] == "d":
+                path.append(("d", e[1]))
+            else:
+                exact = False
+                break
+        return (base[0], tuple(path), exact)
+
+    def place_term(self, p):
+        """term for reading place p, or None"""
+        if not p[1]:
+            return p[0]
+        key = (p[0], repr(p[1]))
+        if key in self._place_cache:
+            return self._place_cache[key]
+        r = self.resolve_place(p)
+        t = None
+        if r is not None and r[2] and self._stable_or_tracked(r[0]):
+            t = ("P", r[0], r[1]) if r[1] else r[0]
+        self._place_cache[key] = t
+        return t
+
+    def _stable_or_tracked(self, l):
+        return True   # terms rooted at a local are killed whenever that local is assigned (State.kill)
+
+    def len_term(self, ptr_op):
+        """term for the length of the slice/Vec/array that pointer operand `ptr_op` points to"""
+        l = op_local(ptr_op)
+        if l is None:
+            p = op_place(ptr_op)
+            if p is None:
+                return None
+            r = self.resolve_place([p[0], list(p[1]) + ["*"]])
+        else:
+            r = self.resolve_place([l, ["*"]])
+        if r is None or not r[2]:
+            return None
+        return ("L", r[0], r[1])
+
+    def term_range(self, t):
+        if isinstance(t, int):
+            return self.tr[t]
+        if t[0] == "L":
+            return (0, ISIZE_MAX)
+        return self.term_tr.get(t)
+
+    def term_of(self, st, op):
+        """term whose value the operand currently equals, or None"""
+        if op[0] == "k":
+            return None
+        p = op[1]
+        if not p[1]:
+            return st.alias.get(p[0], p[0])
+        return self.place_term(p)
+
     # ---- evaluation -------------------------------------------------------------------------
+    def trng(self, st, t):
+        tr = self.term_range(t)
+        r = st.iv.get(t)
+        if r is None:
+            return tr
+        if tr is not None:
+            return clamp_to(r, tr) if r[0] <= tr[1] and r[1] >= tr[0] else r
+        return r
+
     def rng(self, st, op):
         """interval of an operand (None if not an integer)"""
         if op[0] == "k":
@@ -126,13 +420,19 @@ class Intervals:
                 return None
             r = st.iv.get(l, tr)
             a = st.alias.get(l)
-            if a is not None and a in st.iv:
-                r = clamp_to(r, st.iv[a]) if st.iv[a][0] <= r[1] and st.iv[a][1] >= r[0] else r
+            if a is not None:
+                ar = st.iv.get(a)
+                if ar is not None and ar[0] <= r[1] and ar[1] >= r[0]:
+                    r = clamp_to(r, ar)
             return r
+        # overflow tuple fields are kept under (local, field)
         if len(p[1]) == 1 and isinstance(p[1][0], list) and p[1][0][0] == "f":
             k = (l, p[1][0][1])
             if k in st.iv:
                 return st.iv[k]
+        t = self.place_term(p)
+        if t is not None and not isinstance(t, int):
+            return self.trng(st, t)
         return None
 
     def op_type(self, op):
@@ -179,7 +479,10 @@ class Intervals:
             return None
         if op == "Div":
             if b[0] > 0:
-                c = [int(a[0] / b[0]), int(a[0] / b[1]), int(a[1] / b[0]), int(a[1] / b[1])]
+                c = [int(a[0] / b[0]) if abs(a[0]) < (1 << 52) else a[0] // b[0] if a[0] >= 0 else -((-a[0]) // b[0]),
+                     a[0] // b[1] if a[0] >= 0 else -((-a[0]) // b[1]),
+                     a[1] // b[0] if a[1] >= 0 else -((-a[1]) // b[0]),
+                     a[1] // b[1] if a[1] >= 0 else -((-a[1]) // b[1])]
                 return (min(c), max(c))
             return None
         if op == "Rem":
@@ -190,36 +493,165 @@ class Intervals:
             return None
         return None
 
+    # ---- memory effects -------------------------------------------------------------------------
+    def _kill_overlap(self, st, root, path, exact, whole_container=True):
+        """a write (or mutable borrow) of the place (root, path) invalidates the memory terms it overlaps"""
+        n = len(path)
+        for t in list(st.mem_terms()):
+            if t[1] != root:
+                continue
+            tp = t[2]
+            m = min(n, len(tp))
+            if tp[:m] != path[:m]:
+                continue
+            if t[0] == "L":
+                # writing *inside* a container (a longer path, or an element) does not change its length
+                if n > len(tp):
+                    continue
+                if n == len(tp) and not exact:
+                    continue
+                if n == len(tp) and not whole_container:
+                    continue
+            st.kill_term(t)
+
+    def _kill_unknown_write(self, st):
+        """a store through a pointer of unknown provenance: keep only facts rooted at shared references"""
+        for t in list(st.mem_terms()):
+            ty = self.body.locals[t[1]][0]
+            if ty.startswith("&") and not ty.startswith("&mut"):
+                continue
+            st.kill_term(t)
+
+    def _uses_of(self, l):
+        if self._uses is None:
+            u = {}
+            b = self.body
+            for i, blk in enumerate(b.blocks):
+                if blk.cleanup:
+                    continue
+                for s in blk.stmts:
+                    if s[0] != "A":
+                        continue
+                    rv = s[2]
+                    ops = []
+                    if rv[0] in ("use", "repeat"):
+                        ops = [rv[1]]
+                    elif rv[0] == "bin":
+                        ops = [rv[2], rv[3]]
+                    elif rv[0] in ("un", "cast"):
+                        ops = [rv[2]]
+                    elif rv[0] == "agg":
+                        ops = rv[2]
+                    for o in ops:
+                        p = op_place(o)
+                        if p is not None:
+                            u.setdefault(p[0], []).append(("stmt", s))
+                    if rv[0] in ("ref", "raw"):
+                        u.setdefault(rv[2][0], []).append(("ref", s))
+                    if rv[0] == "disc":
+                        u.setdefault(rv[1][0], []).append(("disc", s))
+                    if s[1][1]:
+                        u.setdefault(s[1][0], []).append(("store", s))
+                t = blk.term
+                if t.kind == "call":
+                    for a in t.args:
+                        p = op_place(a)
+                        if p is not None:
+                            u.setdefault(p[0], []).append(("call", t))
+                elif t.kind == "switch":
+                    p = op_place(t.d[1])
+                    if p is not None:
+                        u.setdefault(p[0], []).append(("switch", t))
+            self._uses = u
+        return self._uses.get(l, [])
+
+    RANGE_NEXT = re.compile(r"^core::iter::range::<impl core::iter::traits::(iterator::Iterator|double_ended::DoubleEndedIterator) for "
+                            r"core::ops::range::Range(Inclusive)?<A>>::(next|next_back|size_hint|nth)$|"
+                            r"^<core::iter::adapters::rev::Rev<I> as core::iter::traits::iterator::Iterator>::next$")
+
+    def _only_feeds_range_next(self, ref_local):
+        us = self._uses_of(ref_local)
+        return bool(us) and all(k == "call" and self.RANGE_NEXT.search(t.callee) for k, t in us)
+
     # ---- transfer -----------------------------------------------------------------------------
     def assign(self, st, place, rv, bb, idx):
+        k = rv[0]
         if place[1]:
-            # field write to a tracked tuple? just forget the local
-            if not (place[1][0] == "*"):
-                st.kill(place[0])
+            # a store to memory
+            r = self.resolve_place(place)
+            if r is None:
+                self._kill_unknown_write(st)
+                return
+            root, path, exact = r
+            if path and path[0] == "*" and self._ptr_target(root) is None and not (0 < root <= self.body.argc) \
+                    and not self._is_ref_local(root):
+                self._kill_unknown_write(st)
+            if not path:
+                # field of a local aggregate (e.g. _21.0 = ..): forget the local
+                if not exact or True:
+                    st.kill(root)
+                return
+            self._kill_overlap(st, root, path, exact, whole_container=exact)
+            if exact and k == "use":
+                t = ("P", root, path)
+                v = self.rng(st, rv[1])
+                if v is not None:
+                    ty = self.op_type(rv[1])
+                    tr = ty_range(ty) if ty else None
+                    if tr is None and rv[1][0] != "k":
+                        # operand is itself a place (e.g. an overflow tuple field): take the interval's hull as is
+                        tr = self.term_tr.get(t)
+                    if tr is not None:
+                        self.term_tr.setdefault(t, tr)
+                    if self.term_tr.get(t) is not None:
+                        st.iv[t] = v
+                        # the stored local now equals the place
+                        src = op_local(rv[1])
+                        if src is not None and src not in st.alias:
+                            st.alias[src] = t
+                        # relations of the source carry over
+                        srct = self.term_of(st, rv[1])
+                        if srct is not None and srct != t:
+                            for (a, o, b2) in list(st.rel):
+                                if a == srct:
+                                    st.rel.add((t, o, b2))
+                                if b2 == srct:
+                                    st.rel.add((a, o, t))
             return
         l = place[0]
-        k = rv[0]
         new_iv = None
         new_alias = None
         new_cmp = None
         new_ovf = None
+        new_rng = None
+        new_vf = None
+        new_disc = None
         tr = self.tr[l]
         if k == "use":
             r = self.rng(st, rv[1])
             if r is not None and tr is not None:
-                new_iv = clamp_to(r, tr)
+                new_iv = clamp_to(r, tr) if r[0] <= tr[1] and r[1] >= tr[0] else tr
             src = op_local(rv[1])
             if src is not None:
-                new_alias = st.alias.get(src, src)
+                a = st.alias.get(src, src)
+                if a != l and not (isinstance(a, tuple) and a[0] in ("P", "L") and a[1] == l):
+                    new_alias = a
                 if src in st.cmp:
                     new_cmp = st.cmp[src]
                 if src in st.ovf:
                     new_ovf = st.ovf[src]
+                if src in st.rngs:
+                    new_rng = st.rngs[src]
+                if src in st.vf:
+                    new_vf = st.vf[src]
             else:
                 p = op_place(rv[1])
-                if p is not None and len(p[1]) == 1 and isinstance(p[1][0], list) and p[1][0][0] == "f" and p[1][0][1] == 0:
-                    # (_t.0) of a WithOverflow tuple
-                    pass
+                if p is not None and tr is not None:
+                    t = self.place_term(p)
+                    if t is not None and not isinstance(t, int) and t[1] != l:
+                        self.term_tr.setdefault(t, tr)
+                        new_alias = t
+                        new_iv = self.trng(st, t) or tr
         elif k == "bin":
             op = rv[1]
             a, b = self.rng(st, rv[2]), self.rng(st, rv[3])
@@ -227,15 +659,35 @@ class Intervals:
                 base = op[:-len("WithOverflow")]
                 oty = rv[4]
                 otr = ty_range(oty)
+                # a place operand tells us the place's type
+                for o in (rv[2], rv[3]):
+                    if o[0] != "k" and o[1][1] and otr is not None:
+                        t = self.place_term(o[1])
+                        if t is not None and not isinstance(t, int):
+                            self.term_tr.setdefault(t, otr)
+                a, b = self.rng(st, rv[2]), self.rng(st, rv[3])
                 m = self.binop(base, a, b, otr)
+                ta, tb = self.term_of(st, rv[2]), self.term_of(st, rv[3])
                 st.kill(l)
                 if otr is not None:
-                    st.iv[(l, 0)] = m if (m is not None and fits(m, otr)) else otr
+                    # field 0 is only read after the overflow Assert passed: then it is the mathematical result
+                    if m is not None and m[0] <= otr[1] and m[1] >= otr[0]:
+                        st.iv[(l, 0)] = clamp_to(m, otr)
+                    else:
+                        st.iv[(l, 0)] = otr
                     st.iv[(l, 1)] = (0, 0) if (m is not None and fits(m, otr)) else (0, 1)
-                st.ovf[l] = (base, rv[2], rv[3])
+                st.ovf[l] = (base, rv[2], rv[3], ta, tb, a, b)
                 return
             if op in NEG:
-                new_cmp = (op, rv[2], rv[3])
+                oty = rv[4] if len(rv) > 4 else None
+                otr = ty_range(oty) if oty else None
+                for o in (rv[2], rv[3]):
+                    if o[0] != "k" and o[1][1] and otr is not None:
+                        t = self.place_term(o[1])
+                        if t is not None and not isinstance(t, int):
+                            self.term_tr.setdefault(t, otr)
+                a, b = self.rng(st, rv[2]), self.rng(st, rv[3])
+                new_cmp = (op, rv[2], rv[3], self.term_of(st, rv[2]), self.term_of(st, rv[3]))
                 new_iv = (0, 1)
                 if a is not None and b is not None:
                     t = self.decide(op, a, b, st, rv[2], rv[3])
@@ -247,13 +699,17 @@ class Intervals:
                     new_iv = m
                 elif op in ("Shr", "BitAnd", "Rem", "Div") and m is not None:
                     new_iv = clamp_to(m, tr)
+                elif op in ("AddUnchecked", "SubUnchecked", "MulUnchecked"):
+                    m = self.binop(op[:3], a, b, tr)
+                    if m is not None and fits(m, tr):
+                        new_iv = m
         elif k == "un":
             a = self.rng(st, rv[2])
             if rv[1] == "Not" and self.op_type(rv[2]) == "bool":
                 src = op_local(rv[2])
                 if src is not None and src in st.cmp:
                     c = st.cmp[src]
-                    new_cmp = (NEG[c[0]], c[1], c[2])
+                    new_cmp = (NEG[c[0]],) + tuple(c[1:])
                 if a is not None:
                     new_iv = (1 - a[1], 1 - a[0])
             elif rv[1] == "Neg" and a is not None and tr is not None:
@@ -261,19 +717,60 @@ class Intervals:
                 if fits(m, tr):
                     new_iv = m
             elif rv[1] == "PtrMetadata":
-                new_iv = (0, (1 << 63) - 1)
+                new_iv = (0, ISIZE_MAX)
+                t = self.len_term(rv[2])
+                if t is not None and t[1] != l:
+                    new_alias = t
+                    r0 = st.iv.get(t)
+                    if r0 is not None:
+                        new_iv = r0
         elif k == "cast":
             a = self.rng(st, rv[2])
             if rv[1] == "IntToInt" and tr is not None:
                 if a is not None and fits(a, tr):
                     new_iv = a
+                    # a value-preserving cast keeps the identity of the value
                     src = op_local(rv[2])
+                    if src is not None:
+                        sa = st.alias.get(src, src)
+                        if sa != l and not (isinstance(sa, tuple) and sa[0] in ("P", "L") and sa[1] == l):
+                            new_alias = sa
                 else:
                     new_iv = tr
             elif tr is not None:
                 new_iv = tr
         elif k == "disc":
-            new_iv = None
+            if not rv[1][1]:
+                new_disc = rv[1][0]
+            ty = rv[2] if len(rv) > 2 else ""
+            base = ty.split("<")[0]
+            ds = ADT_DISCRS.get(base)
+            if ds and tr is not None and all(0 <= d < (1 << 63) for d in ds):
+                new_iv = (min(ds), max(ds))
+        elif k == "agg":
+            kd = rv[1]
+            if kd[0] == "adt" and kd[1] in ("core::ops::range::Range", "core::ops::range::RangeInclusive") and len(rv[2]) == 2:
+                a, b = self.rng(st, rv[2][0]), self.rng(st, rv[2][1])
+                if a is not None and b is not None:
+                    new_rng = (a[0], b[1], self.term_of(st, rv[2][1]), kd[1].endswith("Inclusive"))
+        elif k in ("ref", "raw"):
+            mut = (rv[1] == "mut") if k == "ref" else ("Mut" in str(rv[1]))
+            if mut:
+                tgt = rv[2]
+                r = self.resolve_place(tgt)
+                if r is None:
+                    self._kill_unknown_write(st)
+                else:
+                    root, path, exact = r
+                    keep_rng = (not path) and root in st.rngs and self._only_feeds_range_next(l)
+                    saved = st.rngs.get(root) if keep_rng else None
+                    if not path:
+                        if not keep_rng:
+                            st.kill(root)
+                    else:
+                        self._kill_overlap(st, root, path, exact, whole_container=True)
+                    if saved is not None:
+                        st.rngs[root] = saved
         st.kill(l)
         if new_iv is not None:
             st.iv[l] = new_iv
@@ -283,6 +780,12 @@ class Intervals:
             st.cmp[l] = new_cmp
         if new_ovf is not None:
             st.ovf[l] = new_ovf
+        if new_rng is not None:
+            st.rngs[l] = new_rng
+        if new_vf is not None:
+            st.vf[l] = new_vf
+        if new_disc is not None and new_disc != l:
+            st.disc[l] = new_disc
         # field 0 of an overflow tuple moved out
         if k == "use":
             p = op_place(rv[1])
@@ -290,6 +793,33 @@ class Intervals:
                 key = (p[0], p[1][0][1])
                 if key in st.iv and tr is not None:
                     st.iv[l] = clamp_to(st.iv[key], tr)
+                    ov = st.ovf.get(p[0])
+                    if ov is not None and p[1][0][1] == 0 and len(ov) >= 7:
+                        self._result_relations(st, l, ov)
+
+    def _is_ref_local(self, l):
+        ty = self.body.locals[l][0]
+        return ty.startswith("&") or ty.startswith("*")
+
+    def _result_relations(self, st, l, ov):
+        """l = a (op) b did not overflow: order facts between the result and its operands"""
+        base, oa, ob, ta, tb, ra, rb = ov
+        if ra is None or rb is None:
+            return
+        if base == "Add":
+            if rb[0] >= 1 and ta is not None and ta != l:
+                st.rel.add((ta, "<", l))
+            elif rb[0] >= 0 and ta is not None and ta != l:
+                st.rel.add((ta, "<=", l))
+            if ra[0] >= 1 and tb is not None and tb != l:
+                st.rel.add((tb, "<", l))
+            elif ra[0] >= 0 and tb is not None and tb != l:
+                st.rel.add((tb, "<=", l))
+        elif base == "Sub":
+            if rb[0] >= 1 and ta is not None and ta != l:
+                st.rel.add((l, "<", ta))
+            elif rb[0] >= 0 and ta is not None and ta != l:
+                st.rel.add((l, "<=", ta))
 
     def decide(self, op, a, b, st=None, oa=None, ob=None):
         if op == "Lt":
@@ -323,55 +853,93 @@ class Intervals:
             if a[0] == a[1] == b[0] == b[1]:
                 return False
         if st is not None and oa is not None and ob is not None:
-            la, lb = self.canon(st, op_local(oa)), self.canon(st, op_local(ob))
+            la, lb = self.term_of(st, oa), self.term_of(st, ob)
             if la is not None and lb is not None:
-                if op == "Lt" and (la, "<", lb) in st.rel:
+                lt = self.has_rel(st, la, "<", lb)
+                le = lt or self.has_rel(st, la, "<=", lb)
+                gt = self.has_rel(st, lb, "<", la)
+                ge = gt or self.has_rel(st, lb, "<=", la)
+                if op == "Lt":
+                    return True if lt else (False if ge else None)
+                if op == "Le":
+                    return True if le else (False if gt else None)
+                if op == "Gt":
+                    return True if gt else (False if le else None)
+                if op == "Ge":
+                    return True if ge else (False if lt else None)
+                if op == "Ne" and (lt or gt):
                     return True
-                if op == "Le" and ((la, "<", lb) in st.rel or (la, "<=", lb) in st.rel):
-                    return True
-                if op == "Ge" and (la, "<", lb) in st.rel:
+                if op == "Eq" and (lt or gt):
                     return False
-                if op == "Gt" and ((la, "<", lb) in st.rel or (la, "<=", lb) in st.rel):
-                    return False
-                if op == "Gt" and (lb, "<", la) in st.rel:
-                    return True
-                if op == "Ge" and ((lb, "<", la) in st.rel or (lb, "<=", la) in st.rel):
-                    return True
         return None
+
+    def has_rel(self, st, a, o, b):
+        if a == b:
+            return o == "<="
+        if (a, "<", b) in st.rel:
+            return True
+        if o == "<=" and (a, "<=", b) in st.rel:
+            return True
+        # one transitive step
+        for (x, o1, y) in st.rel:
+            if x == a and y != b:
+                if (y, "<", b) in st.rel or (y, "<=", b) in st.rel:
+                    strict = o1 == "<" or (y, "<", b) in st.rel
+                    if o == "<=" or strict:
+                        return True
+        return False
 
     def canon(self, st, l):
         if l is None:
             return None
         return st.alias.get(l, l)
 
-    def narrow(self, st, op, r):
-        l = op_local(op)
-        if l is None or self.tr[l] is None:
-            return True
-        cur = st.iv.get(l, self.tr[l])
+    def _narrow_term(self, st, t, r):
+        tr = self.term_range(t)
+        cur = st.iv.get(t, tr)
+        if cur is None:
+            cur = (-INF, INF)
         n = (max(cur[0], r[0]), min(cur[1], r[1]))
         if n[0] > n[1]:
             return False
-        st.iv[l] = n
-        a = st.alias.get(l)
-        targets = {l}
-        if a is not None:
-            targets.add(a)
-        root = a if a is not None else l
+        if n[0] == -INF or n[1] == INF:
+            if tr is None:
+                return True
+            n = clamp_to(n, tr)
+        st.iv[t] = n
+        return True
+
+    def narrow(self, st, op, r):
+        if op[0] == "k":
+            c = op_const(op)
+            if c and c[1] is not None:
+                return r[0] <= c[1] <= r[1]
+            return True
+        p = op[1]
+        if p[1]:
+            t = self.place_term(p)
+            if t is None or isinstance(t, int):
+                return True
+            return self._narrow_term(st, t, r)
+        l = p[0]
+        if self.tr[l] is None:
+            return True
+        if not self._narrow_term(st, l, r):
+            return False
+        n = st.iv[l]
+        root = st.alias.get(l, l)
+        targets = {root}
         for k, v in st.alias.items():
             if v == root:
                 targets.add(k)
-        targets.add(root)
+        targets.discard(l)
         for t in targets:
-            if self.tr[t] is None:
+            if isinstance(t, int) and self.tr[t] is None:
                 continue
-            c = st.iv.get(t, self.tr[t])
-            m = (max(c[0], n[0]), min(c[1], n[1]))
-            if m[0] <= m[1]:
-                st.iv[t] = m
+            self._narrow_term(st, t, n)   # same value: an empty meet cannot happen on a feasible path
         return True
 
-    def refine(self, st, cmpop, oa, ob, truth):
+    def refine(self, st, cmpop, oa, ob, truth, ta=None, tb=None):
         """returns False if the edge is infeasible"""
         op = cmpop if truth else NEG[cmpop]
         a, b = self.rng(st, oa), self.rng(st, ob)
@@ -394,7 +962,15 @@ class Intervals:
                     ok = self.narrow(st, oa, (a[0] + 1, INF))
                 elif a[1] == b[0]:
                     ok = self.narrow(st, oa, (-INF, a[1] - 1))
-        la, lb = self.canon(st, op_local(oa)), self.canon(st, op_local(ob))
+            elif a[0] == a[1]:
+                if b[0] == a[0]:
+                    ok = self.narrow(st, ob, (b[0] + 1, INF))
+                elif b[1] == a[0]:
+                    ok = self.narrow(st, ob, (-INF, b[1] - 1))
+        if not ok:
+            return False
+        la = ta if ta is not None else self.term_of(st, oa)
+        lb = tb if tb is not None else self.term_of(st, ob)
         if la is not None and lb is not None and la != lb:
             if op == "Lt":
                 st.rel.add((la, "<", lb))
@@ -404,31 +980,89 @@ class Intervals:
                 st.rel.add((lb, "<", la))
             elif op == "Ge":
                 st.rel.add((lb, "<=", la))
-        return ok
+            elif op == "Eq":
+                st.rel.add((la, "<=", lb))
+                st.rel.add((lb, "<=", la))
+        return True
+
+    # ---- calls --------------------------------------------------------------------------------
+    def _payload(self, dest_local, *path):
+        return ("P", dest_local, tuple(path))
 
     def call(self, st, t):
         d = t.d
         dest = d["dest"]
         c = d["callee"]
+        args_ops = d["args"]
+        atys = d.get("atys") or []
+        args = [self.rng(st, a) for a in args_ops]
+        arg_terms = [self.term_of(st, a) for a in args_ops]
+        short = c.split("::")[-1]
+        is_range_next = bool(self.RANGE_NEXT.search(c))
+        # ---- effects on memory: every `&mut` argument may write what it points to
+        rng_src = None
+        for a, aty in zip(args_ops, atys):
+            l = op_local(a)
+            if l is None:
+                continue
+            if aty.startswith("&mut") or aty.startswith("*mut"):
+                tgt = self._ptr_target(l)
+                if tgt is None:
+                    # a `&mut` parameter (or a pointer we cannot follow) handed on: everything under it may change
+                    for tm in list(st.mem_terms()):
+                        if tm[1] == l:
+                            st.kill_term(tm)
+                    continue
+                root, path, exact = tgt
+                if not path:
+                    if is_range_next and root in st.rngs:
+                        rng_src = root
+                        continue
+                    st.kill(root)
+                else:
+                    self._kill_overlap(st, root, path, exact, whole_container=True)
+            elif l in st.rngs and not (short in ("into_iter", "rev", "clone", "len", "is_empty")):
+                pass
         if dest[1]:
-            st.kill(dest[0])
+            r = self.resolve_place(dest)
+            if r is None:
+                self._kill_unknown_write(st)
+            elif not r[1]:
+                st.kill(r[0])
+            else:
+                self._kill_overlap(st, r[0], r[1], r[2], whole_container=True)
             return
         l = dest[0]
         tr = self.tr[l]
-        args = [self.rng(st, a) for a in d["args"]]
         new = None
-        short = c.split("::")[-1]
+        new_alias = None
+        new_rng = None
+        rels = []          # (term_a, op, term_b) with 'D' standing for the destination local
+        payloads = []      # (path, interval, type range, [(op, term)]) facts about Option/Result payloads
         if tr is not None:
-            if c.startswith("core::cmp::Ord::min") or re.search(r"core::cmp::(impls::)?.*Ord.*>::min$", c) or c.endswith("::min") and len(args) == 2:
+            if (c.startswith("core::cmp::Ord::min") or c.endswith("::min")) and len(args) == 2:
                 if args[0] is not None and args[1] is not None:
                     new = (min(args[0][0], args[1][0]), min(args[0][1], args[1][1]))
+                    rels += [("D", "<=", arg_terms[0]), ("D", "<=", arg_terms[1])]
             elif (c.startswith("core::cmp::Ord::max") or c.endswith("::max")) and len(args) == 2:
                 if args[0] is not None and args[1] is not None:
                     new = (max(args[0][0], args[1][0]), max(args[0][1], args[1][1]))
+                    rels += [(arg_terms[0], "<=", "D"), (arg_terms[1], "<=", "D")]
             elif c.endswith("::clamp") and len(args) == 3 and args[1] is not None and args[2] is not None:
                 new = (args[1][0], args[2][1])
-            elif short in ("len", "count", "count_ones", "leading_zeros", "trailing_zeros") or c.endswith("::len"):
-                new = (0, (1 << 63) - 1) if short in ("len", "count") else (0, 128)
+            elif short == "len" and len(args_ops) == 1 and (re.match(r"^<?(core|alloc|std)::", c) or c in KNOWN_LEN_FNS):
+                # lengths of std containers / slices are at most isize::MAX (a user-defined `len` promises nothing)
+                new = (0, ISIZE_MAX)
+                if short == "len" and len(args_ops) == 1 and (c == "core::slice::<impl [T]>::len" or c == "alloc::vec::Vec::<T, A>::len"
+                                                             or c == "core::str::<impl str>::len"):
+                    lt = self.len_term(args_ops[0])
+                    if lt is not None:
+                        new_alias = lt
+                        r0 = st.iv.get(lt)
+                        if r0 is not None:
+                            new = r0
+            elif short in ("count_ones", "count_zeros", "leading_zeros", "trailing_zeros", "leading_ones", "trailing_ones"):
+                new = (0, 128)
             elif short in ("saturating_sub", "wrapping_sub", "saturating_add", "wrapping_add", "wrapping_mul", "saturating_mul") and len(args) == 2:
                 base = {"sub": "Sub", "add": "Add", "mul": "Mul"}[short.split("_")[1]]
                 m = self.binop(base, args[0], args[1], tr)
@@ -437,23 +1071,151 @@ class Intervals:
                         new = clamp_to(m, tr) if m[0] <= tr[1] and m[1] >= tr[0] else tr
                     elif fits(m, tr):
                         new = m
+                if short == "saturating_sub" and tr[0] == 0:
+                    rels.append(("D", "<=", arg_terms[0]))
             elif short == "unsigned_abs" and args and args[0] is not None:
                 a = args[0]
                 new = (0 if a[0] <= 0 <= a[1] else min(abs(a[0]), abs(a[1])), max(abs(a[0]), abs(a[1])))
-            elif short == "rem_euclid" and len(args) == 2 and args[1] is not None and args[1][0] > 0:
+            elif short in ("rem_euclid",) and len(args) == 2 and args[1] is not None and args[1][0] > 0:
                 new = (0, args[1][1] - 1)
-            elif short in ("from", "into") and args and args[0] is not None and fits(args[0], tr):
-                new = args[0]
             elif short == "abs_diff" and len(args) == 2 and args[0] is not None and args[1] is not None:
                 new = (0, max(args[0][1] - args[1][0], args[1][1] - args[0][0]))
+            elif short in CONV_NAMES and len(args) == 1:
+                if args[0] is not None and fits(args[0], tr):
+                    if short in ("from", "into"):
+                        new = args[0]
+                        if arg_terms[0] is not None:
+                            new_alias = arg_terms[0]
+                elif atys and atys[0].lstrip("&") in NEWTYPE_RANGES and NEWTYPE_RANGES[atys[0].lstrip("&")] is not None:
+                    nr = NEWTYPE_RANGES[atys[0].lstrip("&")]
+                    if nr[0] <= tr[1] and nr[1] >= tr[0]:
+                        new = clamp_to(nr, tr)
+            elif short in ("pow",) and len(args) == 2 and args[0] is not None and args[1] is not None and args[0][0] >= 0 and args[1][1] < 200:
+                try:
+                    new = (args[0][0] ** args[1][0], args[0][1] ** args[1][1])
+                    if not fits(new, tr):
+                        new = None
+                except OverflowError:
+                    new = None
             m = self.call_models.get(c)
             if m is not None:
                 new = m(args, tr)
+        else:
+            dty = self.body.locals[l][0]
+            # ---- counting ranges ------------------------------------------------------------
+            if short in ("into_iter", "rev", "clone") and len(args_ops) == 1:
+                src = op_local(args_ops[0])
+                if src is not None and src in st.rngs and "Range" in dty:
+                    new_rng = st.rngs[src]
+            elif c == "core::ops::range::RangeInclusive::<Idx>::new" and len(args) == 2 and args[0] is not None and args[1] is not None:
+                new_rng = (args[0][0], args[1][1], arg_terms[1], True)
+            if is_range_next and rng_src is not None and short in ("next", "next_back", "nth"):
+                lo, hi, endt, incl = st.rngs[rng_src]
+                itr = None
+                m = re.match(r"core::option::Option<(\w+)>$", dty)
+                if m:
+                    itr = ty_range(m.group(1))
+                if itr is not None:
+                    top = hi if incl else hi - 1
+                    iv = clamp_to((lo, top), itr) if lo <= itr[1] and top >= itr[0] else itr
+                    payloads.append(((("d", 1), ("f", 0)), iv, itr, [("<=" if incl else "<", endt)] if endt is not None else []))
+            # ---- checked arithmetic / conversions ---------------------------------------------
+            m = re.match(r"core::option::Option<((?:u|i)(?:8|16|32|64|128|size))>$", dty)
+            if m and short in ("checked_add", "checked_sub", "checked_mul") and len(args) == 2:
+                itr = ty_range(m.group(1))
+                base = {"add": "Add", "sub": "Sub", "mul": "Mul"}[short.split("_")[1]]
+                mm = self.binop(base, args[0], args[1], itr)
+                iv = itr
+                if mm is not None and mm[0] <= itr[1] and mm[1] >= itr[0]:
+                    iv = clamp_to(mm, itr)
+                rl = []
+                if short == "checked_sub" and args[1] is not None and args[1][0] >= 0 and arg_terms[0] is not None:
+                    rl.append(("<=", arg_terms[0]))
+                payloads.append(((("d", 1), ("f", 0)), iv, itr, rl))
+            elif m and short in ("position", "rposition") and "slice::iter::Iter" in (d.get("cargs") or "") + c:
+                payloads.append(((("d", 1), ("f", 0)), (0, ISIZE_MAX - 1), ty_range(m.group(1)), []))
+            m2 = re.match(r"core::result::Result<((?:u|i)(?:8|16|32|64|128|size)), ", dty)
+            if m2 and short in ("try_from", "try_into") and len(args) == 1 and args[0] is not None:
+                itr = ty_range(m2.group(1))
+                if args[0][0] <= itr[1] and args[0][1] >= itr[0]:
+                    payloads.append(((("d", 0), ("f", 0)), clamp_to(args[0], itr), itr, []))
+            if dty.startswith("core::result::Result<usize, usize>") and short.startswith("binary_search"):
+                payloads.append(((("d", 0), ("f", 0)), (0, ISIZE_MAX - 1), (0, (1 << 64) - 1), []))
+                payloads.append(((("d", 1), ("f", 0)), (0, ISIZE_MAX), (0, (1 << 64) - 1), []))
+            if short == "next" and "Enumerate" in c and "slice::iter::Iter" in (d.get("cargs") or "") and dty.startswith("core::option::Option<(usize,"):
+                payloads.append(((("d", 1), ("f", 0), ("f", 0)), (0, ISIZE_MAX - 1), (0, (1 << 64) - 1), []))
+        new_vf = self._variant_facts(st, c, short, args_ops, atys, args, arg_terms, self.body.locals[l][0])
         st.kill(l)
+        if new_vf is not None:
+            st.vf[l] = new_vf
         if new is not None and tr is not None:
             n = clamp_to(new, tr)
             if n[0] <= n[1]:
                 st.iv[l] = n
+        if new_alias is not None and new_alias != l and not (isinstance(new_alias, tuple) and new_alias[1] == l):
+            st.alias[l] = new_alias
+        if new_rng is not None:
+            st.rngs[l] = new_rng
+        for a, o, b in rels:
+            a = l if a == "D" else a
+            b = l if b == "D" else b
+            if a is not None and b is not None and a != b:
+                st.rel.add((a, o, b))
+        for path, iv, itr, rl in payloads:
+            t = ("P", l, path)
+            self.term_tr[t] = itr
+            st.iv[t] = iv
+            for o, other in rl:
+                if other is not None:
+                    st.rel.add((t, o, other))
+
+    GET_RE = re.compile(r"^core::slice::<impl \[T\]>::(get|get_mut)$")
+    READ_AT_RE = re.compile(r"^read_fonts::font_data::FontData::<'a>::(read_at|read_be_at|read_ref_at)$")
+
+    def _variant_facts(self, st, c, short, args_ops, atys, args, arg_terms, dty):
+        """facts that hold when the call's enum result is a particular variant"""
+        def some_or_ok(ty):
+            if ty.startswith("core::option::Option<"):
+                return 1
+            if ty.startswith("core::result::Result<"):
+                return 0
+            if ty.startswith("core::ops::control_flow::ControlFlow<"):
+                return 0
+            return None
+        if self.GET_RE.match(c) and len(args_ops) == 2 and len(atys) == 2 and atys[1] == "usize":
+            it = arg_terms[1]
+            lt = self.len_term(args_ops[0])
+            rels = ((it, "<", lt),) if it is not None and lt is not None else ()
+            bnds = ((it, 0, ISIZE_MAX - 1),) if it is not None else ()
+            if rels or bnds:
+                return (1, rels, bnds)
+            return None
+        if self.READ_AT_RE.match(c) and len(args_ops) == 2 and arg_terms[1] is not None:
+            return (0, (), ((arg_terms[1], 0, ISIZE_MAX - 1),))
+        # propagation through the usual adapters
+        if len(args_ops) >= 1:
+            src = op_local(args_ops[0])
+            if src is not None and src in st.vf and atys:
+                v = st.vf[src]
+                sv = some_or_ok(atys[0])
+                dv = some_or_ok(dty)
+                if sv is not None and v[0] == sv:
+                    if c.endswith("as core::ops::try_trait::Try>::branch") and dv is not None:
+                        return (0, v[1], v[2])
+                    if short in ("ok_or", "ok_or_else", "map", "copied", "cloned", "map_err", "ok", "as_ref", "as_deref", "inspect",
+                                 "and_then_never") and dv is not None:
+                        return (dv, v[1], v[2])
+                    if short in ("is_some", "is_ok") and dty == "bool":
+                        return (1, v[1], v[2])
+        return None
+
+    def _apply_variant_facts(self, st, v):
+        for (a, o, b) in v[1]:
+            st.rel.add((a, o, b))
+        for (t, lo, hi) in v[2]:
+            if not self._narrow_term(st, t, (lo, hi)):
+                return False
+        return True
 
     # ---- fixpoint -----------------------------------------------------------------------------
     def _run(self):
@@ -463,7 +1225,15 @@ class Intervals:
             init.iv[i] = r
         self.in_states[0] = init
         work = [0]
+        steps = 0
+        limit = 400 * max(1, len(body.blocks))
         while work:
+            steps += 1
+            if steps > limit:
+                # did not converge: nothing may be discharged from these states
+                self.converged = False
+                self.in_states = {}
+                return
             bb = work.pop()
             st = self.in_states[bb].copy()
             blk = body.blocks[bb]
@@ -488,12 +1258,20 @@ class Intervals:
                 if cl is not None and cl in st.cmp:
                     s2 = st.copy()
                     c = st.cmp[cl]
-                    self.refine(s2, c[0], c[1], c[2], bool(t.d[2]))
-                kind = t.d[3]
-                if kind.startswith("overflow:") and len(t.d[4]) == 2:
-                    pass
-                outs = [(x, s2) for x in t.targets]
+                    if not self.refine(s2, c[0], c[1], c[2], bool(t.d[2]), c[3], c[4]):
+                        s2 = None
+                elif t.d[3] == "bounds" and len(t.d[4]) == 2:
+                    # Assert(Lt(index, len)) passed
+                    s2 = st.copy()
+                    if not self.refine(s2, "Lt", t.d[4][1], t.d[4][0], True):
+                        s2 = None
+                if s2 is not None:
+                    outs = [(x, s2) for x in t.targets]
             elif t.kind in ("goto", "drop"):
+                if t.kind == "drop":
+                    pl = t.d[1]
+                    if not pl[1]:
+                        st.kill(pl[0])
                 outs = [(x, st) for x in t.targets]
             for x, s2 in outs:
                 if x not in self.in_states:
@@ -502,27 +1280,45 @@ class Intervals:
                 else:
                     cur = self.in_states[x]
                     before = dict(cur.iv)
-                    if cur.join(s2, body):
+                    if cur.join(s2):
                         n = self.visits.get(x, 0) + 1
                         self.visits[x] = n
                         if n > 3:
-                            # widen: anything that moved goes to its type range
                             for k in list(cur.iv):
-                                if before.get(k) != cur.iv[k]:
-                                    l = k[0] if isinstance(k, tuple) else k
-                                    tr = self.tr[l] if not isinstance(k, tuple) else None
+                                old = before.get(k)
+                                new = cur.iv[k]
+                                if old == new or old is None:
+                                    continue
+                                tr = self.term_range(k) if not (isinstance(k, tuple) and isinstance(k[0], int)) else None
+                                if n > 12:
                                     if tr is not None:
                                         cur.iv[k] = tr
                                     else:
                                         del cur.iv[k]
-                        if n < 60:
-                            work.append(x)
+                                    continue
+                                lo, hi = new
+                                if new[0] < old[0]:
+                                    lo = self._widen_lo(new[0])
+                                if new[1] > old[1]:
+                                    hi = self._widen_hi(new[1])
+                                if tr is not None:
+                                    lo, hi = max(lo, tr[0]), min(hi, tr[1])
+                                elif lo == -INF or hi == INF:
+                                    del cur.iv[k]
+                                    continue
+                                cur.iv[k] = (lo, hi)
+                        work.append(x)
 
     def switch(self, st, t):
         d = t.d
         op = d[1]
         l = op_local(op)
         arms = [(int(v), bb) for v, bb in d[2]]
+        # switch values are printed as unsigned bit patterns: reinterpret for signed operand types (Ordering::Less is -1)
+        sm = re.match(r"^i(8|16|32|64|128|size)$", d[4] or "")
+        if sm:
+            bits = 64 if sm.group(1) == "size" else int(sm.group(1))
+            arms = [((v - (1 << bits)) if v >= (1 << (bits - 1)) else v, bb) for v, bb in arms]
         otherwise = d[3]
         outs = []
         cmp = st.cmp.get(l) if l is not None else None
@@ -532,9 +1328,14 @@ class Intervals:
                 continue
             s2 = st.copy()
             if cmp is not None and d[4] == "bool":
-                if not self.refine(s2, cmp[0], cmp[1], cmp[2], val != 0):
+                if not self.refine(s2, cmp[0], cmp[1], cmp[2], val != 0, cmp[3], cmp[4]):
                     continue
-            self.narrow(s2, op, (val, val))
+            if not self.narrow(s2, op, (val, val)):
+                continue
+            vfl = st.disc.get(l, l) if l is not None else None
+            if vfl is not None and vfl in st.vf and st.vf[vfl][0] == val:
+                if not self._apply_variant_facts(s2, st.vf[vfl]):
+                    continue
             outs.append((bb, s2))
         # otherwise
         s2 = st.copy()
@@ -544,10 +1345,12 @@ class Intervals:
             if r is not None and not (r[0] <= other <= r[1]):
                 feasible = False
             if feasible and cmp is not None:
-                if not self.refine(s2, cmp[0], cmp[1], cmp[2], other != 0):
+                if not self.refine(s2, cmp[0], cmp[1], cmp[2], other != 0, cmp[3], cmp[4]):
                     feasible = False
             if feasible:
                 self.narrow(s2, op, (other, other))
+                if l is not None and l in st.vf and st.vf[l][0] == other:
+                    feasible = self._apply_variant_facts(s2, st.vf[l])
         elif r is not None:
             vals = sorted(v for v, _ in arms)
             lo, hi = r
@@ -567,7 +1370,7 @@ class Intervals:
     def state_at_term(self, bb):
         """state just before the terminator of bb (None if unreachable)"""
         if bb not in self.in_states:
-            return None
+            return None if self.converged else State()
         st = self.in_states[bb].copy()
         for j, s in enumerate(self.body.blocks[bb].stmts):
             if s[0] == "A":
@@ -579,6 +1382,8 @@ class Intervals:
     def check_assert(self, bb):
         """(discharged, why) for the Assert terminator of bb"""
         t = self.body.blocks[bb].term
+        if not self.converged:
+            return False, "analysis did not converge"
         st = self.state_at_term(bb)
         if st is None:
             return True, "unreachable (dead by intervals)"
@@ -587,13 +1392,20 @@ class Intervals:
         cond = t.d[1]
         cr = self.rng(st, cond)
         want = 1 if t.d[2] else 0
-        if cr is not None and cr[0] == cr[1] == want:
+        if cr is not None and cr[0] == cr[1] == want and not (kind.startswith("overflow:") and len(ops) == 2):
             return True, "condition is constant by intervals"
         if kind.startswith("overflow:") and len(ops) == 2:
             base = kind.split(":")[1]
             ty = self.op_type(ops[0]) or self.op_type(ops[1])
+            if ty is None:
+                # both operands are places/constants: the overflow tuple's local knows the type
+                cl = op_place(cond)
+                if cl is not None:
+                    mty = re.match(r"\((\w+), bool\)$", self.body.locals[cl[0]][0])
+                    if mty:
+                        ty = mty.group(1)
             if base in ("Shl", "Shr"):
-                ty = self.op_type(ops[0])
+                ty = self.op_type(ops[0]) or ty
                 b = self.rng(st, ops[1])
                 tr = ty_range(ty) if ty else None
                 if b is not None and tr is not None:
@@ -606,11 +1418,19 @@ class Intervals:
             m = self.binop(base, a, b, tr)
             if m is not None and tr is not None and fits(m, tr):
                 return True, f"{base} of [{a[0]}, {a[1]}] and [{b[0]}, {b[1]}] stays in {ty}"
-            # relational: a - b with b <= a
+            ta, tb = self.term_of(st, ops[0]), self.term_of(st, ops[1])
             if base == "Sub" and tr is not None and tr[0] == 0:
-                la, lb = self.canon(st, op_local(ops[0])), self.canon(st, op_local(ops[1]))
-                if la is not None and lb is not None and ((lb, "<", la) in st.rel or (lb, "<=", la) in st.rel):
+                if ta is not None and tb is not None and self.has_rel(st, tb, "<=", ta):
                     return True, "subtrahend <= minuend on this path"
+            if base == "Sub" and tr is not None and b is not None and a is not None and b[0] >= 0 and a[0] >= 0 and tr[0] < 0:
+                return True, "difference of two non-negative values fits the signed type"
+            if base == "Add" and tr is not None and b is not None and a is not None:
+                # a + c where a < x for some x of the same type: a <= MAX - 1 (and transitively for small constants)
+                for (x, o, y) in st.rel:
+                    if o == "<" and ((x == ta and b[1] <= 1 and b[0] >= 0) or (x == tb and a[1] <= 1 and a[0] >= 0)):
+                        yr = self.trng(st, y)
+                        if yr is not None and yr[1] <= tr[1]:
+                            return True, "operand is strictly below another value of the same type, so +1 cannot overflow"
             return False, f"{base} of {a} and {b} may leave {ty}"
         if kind == "overflow_neg" and ops:
             a = self.rng(st, ops[0])
@@ -628,8 +1448,43 @@ class Intervals:
             ln, ix = self.rng(st, ops[0]), self.rng(st, ops[1])
             if ln is not None and ix is not None and ix[1] < ln[0]:
                 return True, f"index <= {ix[1]} < len >= {ln[0]}"
-            la, lb = self.canon(st, op_local(ops[1])), self.canon(st, op_local(ops[0]))
-            if la is not None and lb is not None and (la, "<", lb) in st.rel:
+            ti, tl = self.term_of(st, ops[1]), self.term_of(st, ops[0])
+            if ti is not None and tl is not None and self.has_rel(st, ti, "<", tl):
                 return True, "index < len on this path"
             return False, f"index {ix} vs len {ln}"
         return False, kind
+
+    # ---- slice operations ------------------------------------------------------------------------
+    def slice_len(self, st, ptr_op, aty=None):
+        """(term, interval) for the length of the slice/array/Vec behind pointer operand"""
+        t = self.len_term(ptr_op)
+        r = None
+        if aty:
+            m = re.search(r"\[.*; (\d+)\]$", aty.lstrip("&").replace("mut ", "", 1) if aty.startswith("&") else aty)
+            if m:
+                n = int(m.group(1))
+                r = (n, n)
+        if t is not None:
+            r2 = st.iv.get(t)
+            if r2 is not None:
+                r = r2 if r is None else clamp_to(r, r2)
+        if r is None:
+            r = (0, ISIZE_MAX)
+        return t, r
+
+    def le_len(self, st, op, lt, lr):
+        """operand <= length (term lt, interval lr)?"""
+        r = self.rng(st, op)
+        if r is not None and r[1] <= lr[0]:
+            return True
+        t = self.term_of(st, op)
+        if t is not None and lt is not None and self.has_rel(st, t, "<=", lt):
+            return True
+        return False
+
+    def le(self, st, oa, ob):
+        a, b = self.rng(st, oa), self.rng(st, ob)
+        if a is not None and b is not None and a[1] <= b[0]:
+            return True
+        ta, tb = self.term_of(st, oa), self.term_of(st, ob)
+        return ta is not None and tb is not None and self.has_rel(st, ta, "<=", tb)
